@@ -402,6 +402,8 @@ pub struct Scn {
     pub atol: Tol,
     pub first_step: Option<f64>,
     pub max_step: Option<f64>,
+    /// lower bound on the step size (honoured by Radau and BDF only)
+    pub min_step: Option<f64>,
     pub max_steps: Option<usize>,
     pub t_eval: Option<Vec<f64>>,
     pub dense: bool,
@@ -424,6 +426,7 @@ impl Scn {
             atol: Tol::S(1e-9),
             first_step: None,
             max_step: None,
+            min_step: None,
             max_steps: None,
             t_eval: None,
             dense: false,
@@ -447,6 +450,7 @@ impl Scn {
             .maybe_t_eval(self.t_eval.clone())
             .maybe_first_step(self.first_step)
             .maybe_max_step(self.max_step)
+            .maybe_min_step(self.min_step)
             .dense_output(self.dense)
             .jac_storage(self.jac_storage.clone())
             .mass_storage(self.mass_storage.clone())
@@ -463,6 +467,7 @@ impl Scn {
             "atol": self.atol.describe(),
             "first_step": self.first_step,
             "max_step": self.max_step.map(crate::util::jn),
+            "min_step": self.min_step,
             "max_steps": self.max_steps,
             "t_eval": self.t_eval.as_ref().map(|t| crate::util::jv_trunc(t, 12)),
             "dense_output": self.dense,
